@@ -2,7 +2,9 @@
 # tools/neutral.sh <area> <checks...>: run checks against every behaviour-preserving refactoring of an area
 # (expected: no violation, no inconclusive result).
 area=$1; shift
-for r in /tmp/mut/neutral/$area/${NOUT:-out}/r*.diff; do
+# (the diffs are the committed copies under neutral/: <area>-rK.diff for the first round, <area>-w2-rK.diff for the second)
+pat="$area-r*.diff"; [ "${NOUT:-out}" = out2 ] && pat="$area-w2-r*.diff"
+for r in /verif/neutral/$pat; do
   [ -f "$r" ] || continue
   scratch=$(mktemp -d /dev/shm/verif-neutral-XXXXXX)
   mkdir -p "$scratch/repo" && git -C /repo archive HEAD | tar -x -C "$scratch/repo"
